@@ -123,6 +123,8 @@ def run(ctx):
     kinds = {}
     for (src, name, v), r in zip(meta, res):
         o = outcome(r)
+        if r.get("api_diff"):
+            ctx.violation("libvore.Compile / Run disagree with the parse + generate + run pipeline on the same source", {"source": v, "difference": str(r["api_diff"])[:500]})
         if name == "original":
             orig[src] = o
             continue
